@@ -308,4 +308,295 @@ theorem removeNodeGraph_fac (h : FacOk s fn sn cps) : removeNodeGraph fn.nid (fa
   rw [forEach_cons_ok hrm]; rfl
 
 end
+/-! ### the states a composite passes through -/
+
+theorem closed_fac {s : Topo} {fn sn : GNode} {cps : List GNode} (h : FacOk s fn sn cps) : Closed (fac s fn sn cps) := by
+  intro e he
+  rcases mem_fac_edges.mp he with he | rfl | ⟨c, hc, rfl⟩
+  · obtain ⟨⟨x, hx, hxe⟩, ⟨y, hy, hye⟩⟩ := h.closed e he
+    exact ⟨⟨x, by simp [fac, hx], hxe⟩, ⟨y, by simp [fac, hy], hye⟩⟩
+  · exact ⟨⟨fn, fn_mem, rfl⟩, ⟨sn, sn_mem, rfl⟩⟩
+  · exact ⟨⟨sn, sn_mem, rfl⟩, ⟨c, by simp [fac, hc], rfl⟩⟩
+
+/-- the partial construct: just the node, or node + service + some interfaces -/
+def FacState (s : Topo) (fn : GNode) (B : Topo) : Prop :=
+  B = pushNode fn s ∨ ∃ sn cps, FacOk s fn sn cps ∧ B = fac s fn sn cps
+
+/-- hypotheses about the freshly created node -/
+structure NodeNew (s : Topo) (fn : GNode) : Prop where
+  closed : Closed s
+  ds : IdsDistinct s
+  fcls : fn.cls = .networkNode
+  ffn : ∀ m ∈ s.nodes, m.nid ≠ fn.nid
+
+theorem removeNodeGraph_node {s : Topo} {fn : GNode} (h : NodeNew s fn) : removeNodeGraph fn.nid (pushNode fn s) = (.ok (), s) := by
+  have hd : IdsDistinct (pushNode fn s) := idsDistinct_push h.ds h.ffn
+  have hm : fn ∈ (pushNode fn s).nodes := by simp [pushNode]
+  have hnt : ¬ touches (pushNode fn s).edges fn.ref := not_touch_new h.closed h.ffn
+  unfold removeNodeGraph
+  rw [bind_ok (findNode_of_mem hd hm), bind_ok (guard_run (by simp [h.fcls])),
+    bind_ok (firstNeighbor_run hd hm .has .component), neighbors_isolated hnt, List.map_nil,
+    bind_ok (show M.forEach [] removeCompGraph (pushNode fn s) = (.ok (), pushNode fn s) from rfl),
+    bind_ok (firstNeighbor_run hd hm .has .networkService), neighbors_isolated hnt, List.map_nil,
+    bind_ok (deleteNode_run hd hm)]
+  have : dropNode fn.ref (pushNode fn s) = s := by
+    cases s with
+    | mk ns es =>
+      unfold dropNode pushNode
+      have h1 := filter_nodes_new (s := ⟨ns, es⟩) h.ffn
+      have h2 := filter_untouched (s := ⟨ns, es⟩) h.closed h.ffn
+      simp only [] at h1 h2
+      simp only [List.filter_append, h1, h2]
+      simp
+  rw [this]; rfl
+
+theorem rollback_facState {s : Topo} {fn : GNode} (hn : NodeNew s fn) {B : Topo} (h : FacState s fn B) :
+    removeNodeGraph fn.nid B = (.ok (), s) := by
+  rcases h with rfl | ⟨sn, cps, hok, rfl⟩
+  · exact removeNodeGraph_node hn
+  · exact removeNodeGraph_fac hok
+
+/-- `add_interface` on the service of a partial construct: raises in that state, or one more interface -/
+theorem nsAddInterface_fac {s : Topo} {fn sn : GNode} {cps : List GNode} (h : FacOk s fn sn cps) (fl : Flavour) (c : Nat)
+    (name : String) (nid : Option Nid) (t : Option String) (props : List PropArg) :
+    (∃ e, nsAddInterface fl c sn.nid [] name nid t props (fac s fn sn cps) = (.error e, fac s fn sn cps)) ∨
+    (∃ n r, FacOk s fn sn (cps ++ [n]) ∧
+      nsAddInterface fl c sn.nid [] name nid t props (fac s fn sn cps) = (.ok r, fac s fn sn (cps ++ [n]))) := by
+  unfold nsAddInterface
+  rw [bind_ok (guard_run (by simp))]
+  rcases ifaceNew_cases fl c name nid sn.nid t props (fac s fn sn cps) with ⟨e, he⟩ | ⟨pn, n, hpn, hfr, hcls, _, _, _, _, hres⟩
+  · exact .inl ⟨e, he⟩
+  · have hpn' : sn = pn := by
+      have := findNode_of_mem h.dist (sn_mem (s := s) (fn := fn) (cps := cps))
+      rw [this] at hpn
+      simp only [Prod.mk.injEq, Except.ok.injEq, and_true] at hpn
+      exact hpn
+    subst hpn'
+    have hnt : ¬ touches (pushNode n (fac s fn sn cps)).edges n.ref :=
+      not_touches_of_closed (t := fac s fn sn cps) (closed_fac h) (fun m hm => ref_ne_of_nid_ne (hfr m hm))
+    rw [setEdge_fresh hnt] at hres
+    have hst : ({ pushNode n (fac s fn sn cps) with edges := (pushNode n (fac s fn sn cps)).edges ++ [⟨sn.ref, n.ref, .connects⟩] } : Topo)
+        = fac s fn sn (cps ++ [n]) := by
+      simp [fac, pushNode, List.map_append, List.append_assoc]
+    rw [hst] at hres
+    refine .inr ⟨n, _, ?_, hres⟩
+    have hfr' : ∀ m, m ∈ s.nodes ∨ m = fn ∨ m = sn ∨ m ∈ cps → m.nid ≠ n.nid := by
+      intro m hm
+      apply hfr m
+      simp only [fac, List.mem_append, List.mem_cons, List.mem_nil_iff, or_false]
+      rcases hm with hm | hm | hm | hm
+      · exact .inl (.inl hm)
+      · exact .inl (.inr (.inl hm))
+      · exact .inl (.inr (.inr hm))
+      · exact .inr hm
+    exact {
+      closed := h.closed, ds := h.ds, fcls := h.fcls, scls := h.scls
+      ccls := by
+        intro c' hc'
+        rcases List.mem_append.mp hc' with hc' | hc'
+        · exact h.ccls c' hc'
+        · simp only [List.mem_singleton] at hc'; subst hc'; exact hcls
+      ffn := h.ffn, fsn := h.fsn
+      fcp := by
+        intro c' hc' m hm
+        rcases List.mem_append.mp hc' with hc' | hc'
+        · exact h.fcp c' hc' m hm
+        · simp only [List.mem_singleton] at hc'; subst hc'; exact hfr' m (.inl hm)
+      nfs := h.nfs
+      ncf := by
+        intro c' hc'
+        rcases List.mem_append.mp hc' with hc' | hc'
+        · exact h.ncf c' hc'
+        · simp only [List.mem_singleton] at hc'; subst hc'
+          exact ⟨fun e => hfr' fn (.inr (.inl rfl)) e.symm, fun e => hfr' sn (.inr (.inr (.inl rfl))) e.symm⟩
+      ncc := by
+        rw [List.map_append, List.nodup_append]
+        refine ⟨h.ncc, by simp, ?_⟩
+        intro a ha b hb
+        simp only [List.map_cons, List.map_nil, List.mem_singleton] at hb
+        subst hb
+        obtain ⟨c', hc', rfl⟩ := List.mem_map.mp ha
+        exact hfr' c' (.inr (.inr (.inr hc'))) }
+
+/-- the `try … except Exception: remove the node …; raise` of the composites, when the body only ever leaves a partial
+construct behind: a raise gives back the start state -/
+theorem composite_fs {s B0 : Topo} {fn : GNode} {α : Type} {body : M Topo Unit} {g : Unit → M Topo α} (hn : NodeNew s fn)
+    (hg : ∀ u t, ¬ failed (g u t)) (hbody : FacState s fn (body B0).2) :
+    FS s ((composite fn.nid body >>= g) B0) := by
+  simp only [composite, flag_compositeRollback, if_true]
+  rcases cases_run body B0 with ⟨u, B, hb⟩ | ⟨e, B, hb⟩
+  · have : M.tryCatch body (fun _ => true) (fun e => do removeNodeGraph fn.nid; raise e) B0 = (.ok u, B) := by
+      simp only [M.tryCatch, hb]
+    rw [bind_ok this]
+    intro hf; exact absurd hf (hg u B)
+  · rw [hb] at hbody
+    have hr := rollback_facState hn hbody
+    have : M.tryCatch body (fun _ => true) (fun e => do removeNodeGraph fn.nid; raise e) B0 = (.error e, s) := by
+      simp only [M.tryCatch, hb, if_true]
+      rw [bind_ok hr]; rfl
+    rw [bind_err this]
+    intro _; rfl
+
+def NodeQ (s : Topo) (c : Nat) (a : NodeArgs) (r : Except Err (Nid × Nat) × Topo) : Prop :=
+  (∃ e, r = (.error e, s)) ∨ (∃ fn, NodeNew s fn ∧ fn.nid = (pick a.nid c).1 ∧ r = (.ok (pick a.nid c), pushNode fn s))
+theorem NodeQ.err {s c a} (e : Err) : NodeQ s c a (.error e, s) := .inl ⟨e, rfl⟩
+
+/-- `Topology.add_node` either raises in the state it started from or appends one fresh NetworkNode -/
+theorem addNode_cases (fl : Flavour) (c : Nat) (a : NodeArgs) (s : Topo) (hc : Closed s) (hd : IdsDistinct s) :
+    NodeQ s c a (addNode fl c a s) := by
+  unfold addNode nodeNew
+  refine ro_step (by ro) NodeQ.err (fun _ _ => ?_)
+  refine ro_step (by ro) NodeQ.err (fun _ _ => ?_)
+  refine ro_step (by ro) NodeQ.err (fun _ _ => ?_)
+  refine ro_step (by ro) NodeQ.err (fun _ _ => ?_)
+  unfold NodeQ
+  rcases hp : pick a.nid c with ⟨id, c'⟩
+  simp only []
+  refine ro_step (Q := fun r => (∃ e, r = (.error e, s)) ∨ (∃ fn, NodeNew s fn ∧ fn.nid = id ∧ r = (.ok (id, c'), pushNode fn s)))
+    (by ro) (fun e => .inl ⟨e, rfl⟩) (fun _ _ => ?_)
+  refine ro_step (Q := fun r => (∃ e, r = (.error e, s)) ∨ (∃ fn, NodeNew s fn ∧ fn.nid = id ∧ r = (.ok (id, c'), pushNode fn s)))
+    (by ro) (fun e => .inl ⟨e, rfl⟩) (fun _ _ => ?_)
+  refine ro_step (Q := fun r => (∃ e, r = (.error e, s)) ∨ (∃ fn, NodeNew s fn ∧ fn.nid = id ∧ r = (.ok (id, c'), pushNode fn s)))
+    (by ro) (fun e => .inl ⟨e, rfl⟩) (fun _ _ => ?_)
+  refine ro_step (Q := fun r => (∃ e, r = (.error e, s)) ∨ (∃ fn, NodeNew s fn ∧ fn.nid = id ∧ r = (.ok (id, c'), pushNode fn s)))
+    (by ro) (fun e => .inl ⟨e, rfl⟩) (fun _ _ => ?_)
+  refine ro_step (Q := fun r => (∃ e, r = (.error e, s)) ∨ (∃ fn, NodeNew s fn ∧ fn.nid = id ∧ r = (.ok (id, c'), pushNode fn s)))
+    (by ro) (fun e => .inl ⟨e, rfl⟩) (fun _ _ => ?_)
+  refine ro_step (Q := fun r => (∃ e, r = (.error e, s)) ∨ (∃ fn, NodeNew s fn ∧ fn.nid = id ∧ r = (.ok (id, c'), pushNode fn s)))
+    (by ro) (fun e => .inl ⟨e, rfl⟩) (fun _ _ => ?_)
+  refine addGNode_step (Q := fun r => (∃ e, r = (.error e, s)) ∨ (∃ fn, NodeNew s fn ∧ fn.nid = id ∧ r = (.ok (id, c'), pushNode fn s)))
+    (.inl ⟨_, rfl⟩) (fun fn hfn hfr => ?_)
+  exact .inr ⟨fn, ⟨hc, hd, by rw [hfn], hfr⟩, by rw [hfn], rfl⟩
+
+def SvcQ (s : Topo) (fn : GNode) (r : Except Err (Nid × Cache) × Topo) : Prop :=
+  (∃ e, r = (.error e, pushNode fn s)) ∨ (∃ sn ca, FacOk s fn sn [] ∧ r = (.ok (sn.nid, ca), fac s fn sn []))
+theorem SvcQ.err {s fn} (e : Err) : SvcQ s fn (.error e, pushNode fn s) := .inl ⟨e, rfl⟩
+
+/-- `Node.add_network_service` without interfaces on the fresh node -/
+theorem nodeAddService_node {s : Topo} {fn : GNode} (hn : NodeNew s fn) (fl : Flavour) (c : Nat) (a : SvcArgs) (ha : a.ifs = []) :
+    SvcQ s fn (nodeAddService fl c fn.nid a (pushNode fn s)) := by
+  have hdB : IdsDistinct (pushNode fn s) := idsDistinct_push hn.ds hn.ffn
+  have hmB : fn ∈ (pushNode fn s).nodes := by simp [pushNode]
+  have hcB : Closed (pushNode fn s) := by
+    intro e he
+    obtain ⟨⟨x, hx, hxe⟩, ⟨y, hy, hye⟩⟩ := hn.closed e he
+    exact ⟨⟨x, by simp [pushNode, hx], hxe⟩, ⟨y, by simp [pushNode, hy], hye⟩⟩
+  unfold nodeAddService
+  refine ro_step (by ro) SvcQ.err (fun _ _ => ?_)
+  refine ro_step (by ro) SvcQ.err (fun _ _ => ?_)
+  unfold svcNew
+  rcases hp : pick a.nid c with ⟨id, c1⟩
+  simp only []
+  refine ro_step (by ro) SvcQ.err (fun t _ => ?_)
+  refine ro_step (by ro) SvcQ.err (fun _ _ => ?_)
+  refine ro_step (by ro) SvcQ.err (fun layer _ => ?_)
+  refine ro_step (by ro) SvcQ.err (fun kw _ => ?_)
+  simp only [Option.isNone]
+  refine addGNode_step (SvcQ.err _) (fun sn hsn hfr => ?_)
+  have hsnid : sn.nid = id := by rw [hsn]
+  have hsncls : sn.cls = .networkService := by rw [hsn]
+  have hfn : findNode id (pushNode sn (pushNode fn s)) = (.ok sn, pushNode sn (pushNode fn s)) := by
+    rw [← hsnid]; exact findNode_push_new hfr
+  rw [bind_ok (addEdge_run (r := .has) (findNode_push_old (findNode_of_mem hdB hmB) hfr) hfn)]
+  have hnt : ¬ touches (pushNode sn (pushNode fn s)).edges sn.ref :=
+    not_touches_of_closed (t := pushNode fn s) hcB (fun m hm => ref_ne_of_nid_ne (hfr m hm))
+  rw [setEdge_fresh hnt, ha]
+  have hst : ({ pushNode sn (pushNode fn s) with edges := (pushNode sn (pushNode fn s)).edges ++ [⟨fn.ref, sn.ref, .has⟩] } : Topo)
+      = fac s fn sn [] := by
+    simp [fac, pushNode, List.append_assoc]
+  rw [hst]
+  refine .inr ⟨sn, [], ?_, ?_⟩
+  · have hfr' : ∀ m, m ∈ s.nodes ∨ m = fn → m.nid ≠ sn.nid := by
+      intro m hm
+      apply hfr m
+      simp only [pushNode, List.mem_append, List.mem_singleton]
+      exact hm
+    exact {
+      closed := hn.closed, ds := hn.ds, fcls := hn.fcls, scls := hsncls
+      ccls := by intro c' hc'; cases hc'
+      ffn := hn.ffn
+      fsn := fun m hm => hfr' m (.inl hm)
+      fcp := by intro c' hc'; cases hc'
+      nfs := hfr' fn (.inr rfl)
+      ncf := by intro c' hc'; cases hc'
+      ncc := by simp }
+  · unfold svcLoop
+    rw [hsnid]; rfl
+
+theorem facGo_state {s : Topo} {fn sn : GNode} (fl : Flavour) (nid : Option Nid) :
+    ∀ (l : List (String × List PropArg)) (k cc : Nat) (cps : List GNode), FacOk s fn sn cps →
+      FacState s fn (addFacility.go fl nid sn.nid l k cc (fac s fn sn cps)).2 := by
+  intro l
+  induction l with
+  | nil => intro k cc cps h; exact .inr ⟨sn, cps, h, rfl⟩
+  | cons x rest ih =>
+    intro k cc cps h
+    obtain ⟨iname, ip⟩ := x
+    unfold addFacility.go
+    simp only []
+    rcases nsAddInterface_fac h fl cc iname (suffixId nid ("-int" ++ toString (if Gen.Rules.facIndexReset then 0 else k)))
+      (some "FacilityPort") ip with ⟨e, he⟩ | ⟨n, r, hok, hr⟩
+    · rw [bind_err he]; exact .inr ⟨sn, cps, h, rfl⟩
+    · rw [bind_ok hr]; exact ih _ _ _ hok
+
+theorem swGo_state {s : Topo} {fn sn : GNode} (fl : Flavour) (nid : Option Nid) :
+    ∀ (l : List (String × String × List PropArg)) (cc : Nat) (cps : List GNode), FacOk s fn sn cps →
+      FacState s fn (addSwitch.go fl nid sn.nid l cc (fac s fn sn cps)).2 := by
+  intro l
+  induction l with
+  | nil => intro cc cps h; exact .inr ⟨sn, cps, h, rfl⟩
+  | cons x rest ih =>
+    intro cc cps h
+    obtain ⟨pname, suf, pp⟩ := x
+    unfold addSwitch.go
+    simp only []
+    rcases nsAddInterface_fac h fl cc pname (suffixId nid suf) (some "DedicatedPort") pp with ⟨e, he⟩ | ⟨n, r, hok, hr⟩
+    · rw [bind_err he]; exact .inr ⟨sn, cps, h, rfl⟩
+    · rw [bind_ok hr]; exact ih _ _ hok
+
+/-- `Topology.add_facility`: whichever step raises - the node, its service, the k-th interface - the model is what it was -/
+theorem addFacility_fs (fl : Flavour) (c : Nat) (name : String) (nid : Option Nid) (site : Option String)
+    (nstype : Option String) (nsprops : List PropArg) (ifs : Option (List (String × List PropArg))) (kw : List PropArg)
+    (s : Topo) (hc : Closed s) (hd : IdsDistinct s) : FS s (addFacility fl c name nid site nstype nsprops ifs kw s) := by
+  unfold addFacility
+  rcases addNode_cases fl c ⟨name, nid, site, some "Facility", []⟩ s hc hd with ⟨e, he⟩ | ⟨fn, hn, hid, hok⟩
+  · rw [bind_err he]; exact FS.err e
+  · rw [bind_ok hok]
+    rcases hp : pick nid c with ⟨facn, c1⟩
+    simp only [hp] at hid
+    simp only []
+    subst hid
+    refine composite_fs hn (fun u t => by simp) ?_
+    rcases nodeAddService_node hn fl c1 ⟨name ++ "-ns", suffixId nid "-ns", nstype, none, none, nsprops, []⟩ rfl with ⟨e, he⟩ | ⟨sn, ca, hfo, hr⟩
+    · rw [bind_err he]; exact .inl rfl
+    · rw [bind_ok hr]
+      simp only []
+      cases ifs with
+      | none =>
+        simp only []
+        rcases nsAddInterface_fac hfo fl (pick (suffixId nid "-ns") c1).2 (name ++ "-int") (suffixId nid "-int") (some "FacilityPort") kw
+          with ⟨e, he⟩ | ⟨n, r, hok2, hr2⟩
+        · rw [bind_err he]; exact .inr ⟨sn, [], hfo, rfl⟩
+        · rw [bind_ok hr2]; exact .inr ⟨sn, _, hok2, rfl⟩
+      | some l => exact facGo_state fl nid l 0 _ [] hfo
+
+/-- `Topology.add_switch` -/
+theorem addSwitch_fs (fl : Flavour) (c : Nat) (name : String) (nid : Option Nid) (site : Option String)
+    (nstype : Option String) (nsprops : List PropArg) (ports : List (String × String × List PropArg))
+    (s : Topo) (hc : Closed s) (hd : IdsDistinct s) : FS s (addSwitch fl c name nid site nstype nsprops ports s) := by
+  unfold addSwitch
+  rcases addNode_cases fl c ⟨name, nid, site, some "Switch", []⟩ s hc hd with ⟨e, he⟩ | ⟨fn, hn, hid, hok⟩
+  · rw [bind_err he]; exact FS.err e
+  · rw [bind_ok hok]
+    rcases hp : pick nid c with ⟨sw, c1⟩
+    simp only [hp] at hid
+    simp only []
+    subst hid
+    refine composite_fs hn (fun u t => by simp) ?_
+    rcases nodeAddService_node hn fl c1 ⟨name ++ "-ns", suffixId nid "-ns", nstype, none, none, nsprops, []⟩ rfl with ⟨e, he⟩ | ⟨sn, ca, hfo, hr⟩
+    · rw [bind_err he]; exact .inl rfl
+    · rw [bind_ok hr]
+      simp only []
+      exact swGo_state fl nid ports _ [] hfo
+
 end FimVerif.Topo
